@@ -451,6 +451,28 @@ Proof.
     + intro k. rewrite (view_memb _ _ k Hr). apply (apply_updated_effect (idx o) _ nw Hne Hap).
 Qed.
 
+Lemma stepV_putlost sg r0 s t s' :
+  InvS s -> InvV r0 s -> step sg s (EPutLost t) = Some s' -> InvV r0 s'.
+Proof.
+  intros I V H. simpl in H.
+  destruct (pcs s t) as [|c0| | |old|nw o|oi ap|r|r|r] eqn:Hpc; try discriminate.
+  assert (Hm : is_main (pcs s t) = true) by (rewrite Hpc; reflexivity).
+  destruct (v_main _ _ V t Hm) as [_ Ha]. rewrite Hpc in Ha. simpl in Ha. symmetry in Ha.
+  pose proof (items_nonempty _ _ V) as Hne.
+  pose proof (store_cases _ _ _ I V Hm) as Hst.
+  assert (Hst' : forall x, In x (store s) -> reg s = Some x \/ In x (junk s)).
+  { intros x Hx. destruct (Hst x Hx) as [E|[E|(a & E)]]; auto. congruence. }
+  destruct (n_put _ _ V t nw o Hpc) as [Hr Hap].
+  injection H as <-.
+  unfold set_pc, add_lin, set_reg, batch; simpl; fold (batch s).
+  apply invV_main_apply; auto.
+  - view_triv.
+  - intros x [<-|Hx]; auto. destruct (Hst' x Hx) as [E|E].
+    + pose proof (view_some _ _ _ E Hr) as Eo. subst o. right; left; now left.
+    + right; left. destruct o; simpl; auto.
+  - intro k. rewrite (view_memb _ _ k Hr). apply (apply_updated_effect (idx o) _ nw Hne Hap).
+Qed.
+
 Lemma stepV_del sg r0 s t f s' :
   InvS s -> InvV r0 s -> step sg s (EDel t f) = Some s' -> InvV r0 s'.
 Proof.
@@ -484,6 +506,43 @@ Proof.
       assert (Hstore : forall x,
                 In x (filter (fun x0 => negb (index_eqb x0 oi)) (store s)) ->
                 None = Some x \/ In x (junk s) \/ exists a, Completing ROk = NeedDel x a).
+      { intros x Hx. apply filter_In in Hx as [Hx Hx2]. apply negb_true_iff in Hx2.
+        destruct (Hst x Hx) as [E|[E|(a & E)]]; auto.
+        - pose proof (view_some _ _ _ E Hv) as Eo. injection Eo as <-. rewrite index_eqb_refl in Hx2. discriminate.
+        - rewrite Hpc in E. injection E as <- _. rewrite index_eqb_refl in Hx2. discriminate. }
+      assert (Hset : forall k, memb None k = member_after k (memb (reg s) k) (map snd (items s))).
+      { intro k. rewrite (view_memb _ _ k Hv). apply (apply_updated_effect oi _ [] Hne Hap). }
+      destruct Hv as [Hr|[Hr Hd]]; unfold set_pc, add_lin, set_reg, batch; simpl; fold (batch s);
+        rewrite Hr; rewrite ?index_eqb_refl;
+        (apply invV_main_apply; auto; view_triv).
+Qed.
+
+Lemma stepV_dellost sg r0 s t s' :
+  InvS s -> InvV r0 s -> step sg s (EDelLost t) = Some s' -> InvV r0 s'.
+Proof.
+  intros I V H. simpl in H.
+  destruct (pcs s t) as [|c0| | |old|nw o|oi ap|r|r|r] eqn:Hpc; try discriminate.
+  assert (Hm : is_main (pcs s t) = true) by (rewrite Hpc; reflexivity).
+  destruct (v_main _ _ V t Hm) as [_ Ha]. rewrite Hpc in Ha. simpl in Ha. symmetry in Ha.
+  pose proof (items_nonempty _ _ V) as Hne.
+  pose proof (store_cases _ _ _ I V Hm) as Hst.
+  injection H as <-. destruct ap.
+    + destruct (n_del1 _ _ V t oi Hpc) as (new & Hv & Hneq).
+      assert (Hstore : forall r', r' = reg s -> forall x,
+                In x (filter (fun x0 => negb (index_eqb x0 oi)) (store s)) ->
+                r' = Some x \/ In x (junk s) \/ exists a, Completing RIdxDel = NeedDel x a).
+      { intros r' -> x Hx. apply filter_In in Hx as [Hx Hx2]. apply negb_true_iff in Hx2.
+        destruct (Hst x Hx) as [E|[E|(a & E)]]; auto.
+        rewrite Hpc in E. injection E as <- _. rewrite index_eqb_refl in Hx2. discriminate. }
+      destruct Hv as [Hr|[Hr Hd]]; unfold set_pc, set_reg; simpl; rewrite Hr; rewrite ?Hneq;
+        (apply invV_main_keep; auto).
+      all: try solve [view_triv].
+      all: try solve [intros x Hx; exact (Hstore _ (eq_sym Hr) x Hx)].
+      all: try solve [intro k; now rewrite Hr].
+    + destruct (n_del0 _ _ V t oi Hpc) as (Hv & Hap).
+      assert (Hstore : forall x,
+                In x (filter (fun x0 => negb (index_eqb x0 oi)) (store s)) ->
+                None = Some x \/ In x (junk s) \/ exists a, Completing RLost = NeedDel x a).
       { intros x Hx. apply filter_In in Hx as [Hx Hx2]. apply negb_true_iff in Hx2.
         destruct (Hst x Hx) as [E|[E|(a & E)]]; auto.
         - pose proof (view_some _ _ _ E Hv) as Eo. injection Eo as <-. rewrite index_eqb_refl in Hx2. discriminate.
@@ -569,7 +628,9 @@ Proof.
   - eapply stepV_prepare; eauto.
   - eapply stepV_commit; eauto.
   - eapply stepV_put; eauto.
+  - eapply stepV_putlost; eauto.
   - eapply stepV_del; eauto.
+  - eapply stepV_dellost; eauto.
   - eapply stepV_complete; eauto.
   - eapply stepV_done; eauto.
   - eapply stepV_extdrop; eauto.
